@@ -4,6 +4,13 @@ sub-agent (property text, quantifier, anchors and mechanisms from properties.jso
 import json, pathlib, subprocess, sys, re
 letter = sys.argv[1]
 STYLE = {
+ 'g': ("This time make it a CLEAN-UP / SIMPLIFICATION that goes slightly wrong - the diff should mostly REMOVE or SHORTEN code: something that looks "
+       "redundant is dropped (a second check, a repeated re-trigger call, a defensive copy `list(...)`, a re-read of `env.now`, a `not ev.triggered` "
+       "guard, the reset of a variable, an `else` branch, a `try/except`), two branches that look alike but differ in one detail are merged, a hand-written "
+       "loop is replaced by a builtin or comprehension with slightly different semantics (any/all/next/sum/min/max/sorted/index/filter: first vs last match, "
+       "stable vs unstable, short-circuit vs full scan, default value), `is`/`==` or `<`/`<=` exchanged while 'tidying', iteration over a copy turned into "
+       "iteration over the live list, a sibling class's code copied over although the two classes differ in one detail. It must still look like an "
+       "improvement a reviewer would wave through."),
  'f': ("This time prefer a change of a KIND the earlier ones are not: code ADDED rather than edited (a small cache / memo of a length, index or "
        "flag that goes stale; an 'optimisation' that skips work when it looks unnecessary; a fast path for the common case; a new default; a helper "
        "introduced to share code between two methods that differ in one detail), an edit in a component NONE of the earlier changes touched (look at "
